@@ -132,6 +132,9 @@ func verifObserve(st *State) *verifView {
 		c := st.Candidates.GetCandidate(pk)
 		v.add("cand.status."+n, u(uint64(c.Status)))
 		v.add("cand.commission."+n, u(uint64(c.Commission)))
+		v.add("cand.lastedit."+n, u(c.LastEditCommissionHeight))
+		v.add("cand.jailed."+n, u(c.JailedUntil))
+		v.add("cand.owner."+n, new(big.Int).SetBytes(c.OwnerAddress[:]))
 		v.add("cand.total."+n, st.Candidates.GetTotalStake(pk))
 		for j, d := range []types.Address{A, B, C} {
 			v.add("stake."+n+"."+string(rune('A'+j)), st.Candidates.GetStakeValueOfAddress(pk, d, 0))
@@ -229,6 +232,10 @@ func verifBlock2(st *State) {
 		st.FrozenFunds.AddFund(60, A, &P, st.Candidates.ID(P), 0, verifAmount("step.ff", 14), 0)
 		st.Waitlist.Delete(B, Q, 1)
 		st.Candidates.SetOffline(Q)
+	case 5: // a commission "edit" to the value the candidate already has (only the edit height changes)
+		st.Candidates.EditCommission(P, 10, 150)
+	case 6: // candidate addresses
+		st.Candidates.Edit(Q, A, A, A)
 	case 4: // pools, coins, app
 		st.SwapV2.PairSellWithOrders(1, 0, verifE18(1), big.NewInt(0))
 		st.Coins.SubVolume(1, big.NewInt(1))
